@@ -125,6 +125,14 @@ impl Decoder {
     }
 }
 
+// Verification hook (compiled only with --cfg raptorq_verif): which source blocks have been reconstructed.
+#[cfg(raptorq_verif)]
+impl Decoder {
+    pub fn verif_blocks_done(&self) -> Vec<bool> {
+        self.blocks.iter().map(|b| b.is_some()).collect()
+    }
+}
+
 #[derive(Clone, Debug, PartialEq, Eq)]
 #[cfg_attr(feature = "serde_support", derive(Serialize, Deserialize))]
 pub struct SourceBlockDecoder {
